@@ -472,11 +472,13 @@ func Generate(r *hlib.Rng, class string, mtime int64) *Gen {
 	}
 	if o.Located {
 		rootMap := r.Chance(1, 3)
+		emptyM, empty8 := false, false
 		for _, z := range g.Zones {
 			if r.Chance(3, 4) && !(rootMap && r.Chance(3, 4)) {
 				if r.Chance(1, 5) {
 					// a map without any subnet: it sorts right after m9 / m1, whose range points must not leak
 					g.Map("M", z, "n0", true)
+					emptyM = true
 				} else {
 					g.Map("M", z, "m1", true)
 				}
@@ -492,12 +494,17 @@ func Generate(r *hlib.Rng, class string, mtime int64) *Gen {
 		if r.Chance(1, 2) {
 			g.Subnet(locB, "fd00::/16", "m1")
 		}
+		if emptyM && r.Chance(2, 3) {
+			// the map sorting right before the empty one ends with a range point that carries a location
+			g.Subnet([][]byte{locA, locB}[r.Intn(2)], []string{"::/0", "ff00::/8", "ffff:ffff::/32"}[r.Intn(3)], "m1")
+		}
 		if r.Chance(1, 2) {
 			// a client-subnet map for some of the zones: names with an M map and no 8 map, both, neither
 			for _, z := range g.Zones {
 				if r.Chance(1, 2) {
 					if r.Chance(1, 5) {
 						g.Map("8", z, "f0", true) // no subnets; sorts right after e9 / e1
+						empty8 = true
 					} else {
 						g.Map("8", z, "e1", true)
 					}
@@ -508,6 +515,9 @@ func Generate(r *hlib.Rng, class string, mtime int64) *Gen {
 			}
 			g.Subnet(locA, "10.0.0.0/8", "e1")
 			g.Subnet(locB, "172.16.0.0/12", "e1")
+			if empty8 && r.Chance(2, 3) {
+				g.Subnet([][]byte{locA, locB}[r.Intn(2)], []string{"::/0", "ff00::/8", "ffff:ffff::/32"}[r.Intn(3)], "e1")
+			}
 		}
 	}
 	// shuffle the lines: the compiled database must not depend on the order
